@@ -462,6 +462,10 @@ def main_check(pid, tier):
 
 
 def main(argv):
+    import warnings
+
+    # awaitables that the library rejects (misplaced async contracts) are never awaited: not this driver's business at exit
+    warnings.filterwarnings("ignore", message=".*was never awaited", category=RuntimeWarning)
     if not argv:
         sys.stdout.write(__doc__ + "\n")
         return 2
